@@ -94,6 +94,7 @@ def _static(
 ) -> bytes:
     result = b'Error: could not find static files '
     fn = fn.lstrip('/')  # since a URL, remove all leading /
+    valid = False  # only a file found inside one of the roots is served
     for d in [Path(dawgie.context.fe_path).resolve(), Path(bdir).resolve()]:
         ffn = (d / fn).resolve()
 
@@ -104,10 +105,11 @@ def _static(
         if ffn.is_dir():
             ffn = ffn / 'index.html'
         if ffn.is_file():
+            valid = True
             break
         result += bytes(ffn) + b'     '
 
-    if ffn.is_file():
+    if valid and ffn.is_file():
         if isdep and ffn.suffix.lower() == '.html':
             with open(ffn, 'rt', encoding='utf-8') as f:
                 html = f.read()
